@@ -94,6 +94,9 @@ type GuardDecl struct {
 	Type   string // struct type name
 	Mutex  string
 	Fields map[string]bool
+	Recv   string  // receiver name used in Inv
+	Inv    *Clause // lock invariant: holds whenever the lock is not held by us
+	Pkg    *packages.Package
 }
 
 var labelRe = regexp.MustCompile(`^([A-Za-z_][A-Za-z0-9_]*):\s+(.*)$`)
@@ -169,7 +172,11 @@ func (c *Ctx) parseContracts(p *packages.Package) error {
 					c.externs[key] = cur
 					lastClause = nil
 				case "uninterpreted":
-					c.uninterp[rest] = true
+					if strings.Contains(rest, ".") {
+						c.uninterp[rest] = true
+					} else {
+						c.uninterp[p.PkgPath+"."+rest] = true
+					}
 				case "guarded_by":
 					// guarded_by Type.mutex: f1, f2
 					parts := strings.SplitN(rest, ":", 2)
@@ -182,6 +189,33 @@ func (c *Ctx) parseContracts(p *packages.Package) error {
 						g.Fields[strings.TrimSpace(f)] = true
 					}
 					c.guards[p.PkgPath] = append(c.guards[p.PkgPath], g)
+				case "lock_inv":
+					// lock_inv Type.mutex(recv): expr
+					parts := strings.SplitN(rest, ":", 2)
+					if len(parts) != 2 {
+						return fmt.Errorf("%s: bad lock_inv", where)
+					}
+					head := strings.TrimSpace(parts[0])
+					i := strings.Index(head, "(")
+					if i < 0 {
+						return fmt.Errorf("%s: bad lock_inv head", where)
+					}
+					tm := strings.SplitN(head[:i], ".", 2)
+					recv := strings.Trim(head[i:], "()")
+					cl, err := parseClause(strings.TrimSpace(parts[1]))
+					if err != nil {
+						return fmt.Errorf("%s: %v", where, err)
+					}
+					found := false
+					for _, g := range c.guards[p.PkgPath] {
+						if g.Type == tm[0] && g.Mutex == tm[1] {
+							g.Recv, g.Inv, g.Pkg = recv, &cl, p
+							found = true
+						}
+					}
+					if !found {
+						return fmt.Errorf("%s: lock_inv before guarded_by", where)
+					}
 				case "ctor":
 					c.ctors[p.PkgPath+"."+rest] = true
 				default:
@@ -358,6 +392,8 @@ func findTop(s, tok string) int {
 	return -1
 }
 
+var quantAnyRe = regexp.MustCompile(`^(all|some)\s+([A-Za-z_][A-Za-z0-9_]*)\s+([A-Za-z_][A-Za-z0-9_.\[\]\*]*)\s*::`)
+
 var quantRe = regexp.MustCompile(`^(forall|exists)\s+([A-Za-z_][A-Za-z0-9_]*)\s+in\s+\[`)
 
 // desugar rewrites  a ==> b,  a <==> b,  forall i in [lo,hi) :: body  to Go syntax.
@@ -383,6 +419,10 @@ func desugar(s string) string {
 		body := desugar(strings.TrimSpace(after[2:]))
 		return fmt.Sprintf("%s(%s, %s, func(%s int) bool { return %s })", m[1], desugar(parts[0]), desugar(parts[1]), m[2], body)
 	}
+	if m := quantAnyRe.FindStringSubmatch(s); m != nil {
+		body := desugar(strings.TrimSpace(s[len(m[0]):]))
+		return fmt.Sprintf("%s(func(%s %s) bool { return %s })", m[1], m[2], m[3], body)
+	}
 	if i := findTop(s, "<==>"); i >= 0 {
 		return fmt.Sprintf("iff(%s, %s)", desugar(s[:i]), desugar(s[i+4:]))
 	}
@@ -390,7 +430,7 @@ func desugar(s string) string {
 		return fmt.Sprintf("implies(%s, %s)", desugar(s[:i]), desugar(s[i+3:]))
 	}
 	// quantifier in the middle at top level: a && forall ...
-	for _, kw := range []string{"forall ", "exists "} {
+	for _, kw := range []string{"forall ", "exists ", "all ", "some "} {
 		if i := findTopWord(s, kw); i > 0 {
 			return desugarGroups(s[:i]) + desugar(s[i:])
 		}
@@ -408,7 +448,7 @@ func findTopWord(s, kw string) int {
 			d--
 		}
 		if d == 0 && strings.HasPrefix(s[i:], kw) && (i == 0 || !isIdentChar(s[i-1])) {
-			if quantRe.MatchString(s[i:]) {
+			if quantRe.MatchString(s[i:]) || quantAnyRe.MatchString(s[i:]) {
 				return i
 			}
 		}
@@ -441,7 +481,7 @@ func findClose(s string) int {
 
 // desugarGroups desugars inside parenthesised groups.
 func desugarGroups(s string) string {
-	if !strings.Contains(s, "==>") && !strings.Contains(s, "forall ") && !strings.Contains(s, "exists ") {
+	if !strings.Contains(s, "==>") && !strings.Contains(s, "forall ") && !strings.Contains(s, "exists ") && !strings.Contains(s, "all ") && !strings.Contains(s, "some ") {
 		return s
 	}
 	var b strings.Builder
